@@ -13,7 +13,7 @@ RULE = ("Flow A: TLC runs encode -> check -> decode step machines on every order
         "4096 bits, random tables, check lengths to 64, lists and numpy arrays; the precondition is decided by TLC and the "
         "recorded round trip judged by Trace_Coding. Distinct non-trivial = distinct judged cases with a non-empty message.")
 
-MINE = {"round-trip", "encode-raises", "check", "argument-modified"}
+MINE = {"round-trip", "encode-raises"}
 SLOT_ENV = "VERIF_SLOT"
 
 
